@@ -32,6 +32,7 @@ META = {
 
 PC = "hiten.algorithms.continuation.backends.pc"
 SB = "hiten.algorithms.continuation.stepping.base"
+ST = "hiten.algorithms.continuation.stepping"
 SC = "hiten.algorithms.continuation.stepping.sc.base"
 NP_ = "hiten.algorithms.continuation.stepping.np.base"
 SUP = "hiten.algorithms.continuation.stepping.support"
@@ -156,7 +157,9 @@ def _driver(chk):
             ctx.ghost[k] = ctx.fresh("gi_" + k, "int").v
 
     list_types = {"family": mk_list("vec"), "params_history": mk_list("par"), "aux_history": "keep",
-                  "corrected": "vec", "last": "vec", "prediction": "vec"}
+                  "corrected": "vec", "last": "vec", "prediction": "vec",
+                  # loop-local temporaries that a changed body might carry over from an earlier iteration
+                  "aux": (lambda ctx, n, cur: {}), "converged": "bool"}
     specs = {
         0: {"invariant": outer_inv, "body_invariant": outer_body_inv, "types": dict(list_types, step_vec="real", res_norm="real"),
             "also_havoc": ("family", "params_history"), "ghost_havoc": ghost_havoc_outer},
@@ -603,6 +606,51 @@ def _members(chk):
             "K2 wiring", [CI + ":_OrbitContinuationInterface._build_corrector"], "B3 sympy normal form", th_corrector)
 
 
+def _stepper_factories(chk):
+    """the stepper built by each factory honours the CONFIGURED step bounds and shrink policy (observed through its own
+    on_reject / on_accept, not through attribute names)"""
+    import hiten.algorithms.continuation.stepping as stp
+
+    def th():
+        import inspect
+        import hiten.algorithms.continuation.stepping.support as sup_mod
+        sup_cls = [sup_mod._VectorSpaceSecantSupport]
+        for name, factory, support in (("natural", stp.make_natural_stepper(), None),
+                                       ("secant", stp.make_secant_stepper(), sup_cls[0]())):
+            for smin, smax, step0 in ((0.04, 0.5, 0.1), (0.3, 5.0, 2.0)):
+                pol = []
+                stepper = factory(lambda r, *a: _np.asarray(r, dtype=float), support, _np.array([1.0, 1.0]), _np.array([step0]),
+                                  lambda r, st: _np.asarray(r, dtype=float) + float(_np.ravel(st)[0]), smin, smax, None)
+                st = _np.array([step0])
+                seq = []
+                for _ in range(6):
+                    st = _np.asarray(stepper.on_reject(last_solution=None, step=st, proposal=None), dtype=float)
+                    seq.append(float(abs(st[0])))
+                if min(seq) < smin * (1 - 1e-12) or abs(seq[-1] - smin) > 1e-12:
+                    raise Refuted(f"{name} stepper: after repeated rejections the step falls to {seq[-1]:g} (configured "
+                                  f"step_min = {smin}); halving sequence {seq}", "the configured bounds do not reach the stepper",
+                                  inputs={"stepper": name, "step_min": smin, "step_max": smax, "initial_step": step0})
+                big = _np.asarray(stepper.on_accept(last_solution=None, new_solution=None, step=_np.array([step0]),
+                                                    proposal=_Obj(step_hint=None)), dtype=float)
+                if abs(big[0]) > smax * (1 + 1e-12) or (step0 <= smax and abs(abs(big[0]) - step0) > 1e-12):
+                    raise Refuted(f"{name} stepper: an accepted step of {step0} becomes {float(big[0]):g} with configured bounds "
+                                  f"[{smin}, {smax}]", "the configured bounds do not reach the stepper",
+                                  inputs={"stepper": name, "step_min": smin, "step_max": smax, "initial_step": step0})
+                # user shrink policy is the one consulted
+                stepper2 = factory(lambda r, *a: _np.asarray(r, dtype=float), (sup_cls[0]() if support is not None else None),
+                                   _np.array([1.0, 1.0]), _np.array([step0]),
+                                   lambda r, st_: _np.asarray(r, dtype=float) + float(_np.ravel(st_)[0]), smin, smax,
+                                   lambda s_: pol.append(1) or s_ * 0.75)
+                out = _np.asarray(stepper2.on_reject(last_solution=None, step=_np.array([step0]), proposal=None), dtype=float)
+                want = min(max(0.75 * step0, smin), smax)
+                if not pol or abs(abs(out[0]) - want) > 1e-12:
+                    raise Refuted(f"{name} stepper: configured shrink policy not used (step {step0} -> {float(out[0]):g}, "
+                                  f"policy 0.75*step clamped gives {want:g})", "", inputs={"stepper": name})
+    chk.obl("stepper factories (natural, secant): the stepper honours the CONFIGURED step_min / step_max / shrink policy "
+            "(repeated on_reject ends at step_min, on_accept never exceeds step_max, the user policy is consulted)",
+            "K2 wiring", [ST + ":make_natural_stepper", ST + ":make_secant_stepper"], "B4 exact evaluation", th)
+
+
 def run(chk):
     loader.install()
     chk.under_contract(
@@ -622,4 +670,5 @@ def run(chk):
                     "_build_corrector forwarding `converged`; end-to-end family validity for real seeds is numerical")
     _driver(chk)
     _stepping(chk)
+    _stepper_factories(chk)
     _members(chk)
